@@ -581,6 +581,16 @@ class NP:
                 return False
         return True
 
+    def all(self, x, axis=None):
+        if isinstance(x, (Arr, OArr)):
+            raise TracerError('numpy.all of an array')
+        return bool(x)
+
+    def any(self, x, axis=None):
+        if isinstance(x, (Arr, OArr)):
+            raise TracerError('numpy.any of an array')
+        return bool(x)
+
     def clip(self, a, lo, hi):
         a = explode(_arr(a))
         return a._map(lambda x: smin(smax(x, Sym.lift(lo)), Sym.lift(hi)))
